@@ -87,7 +87,7 @@ func c08grammars(quick bool) []func() *recGrammar {
 			out = append(out, func() *recGrammar {
 				b := &builder{unions: make([]*g.Prod, k)}
 				for i := range b.unions {
-					b.unions[i] = &g.Prod{Name: fmt.Sprintf("U%d", i), UnionSlot: i}
+					b.unions[i] = &g.Prod{Name: fmt.Sprintf("U%d", i), UnionSlot: i, Members: []*g.Prod{nil}} // placeholder: fields get the union kind
 				}
 				body := bodies(b)[idx]()
 				// body is a sequence node "P0 body ; P1 body ; ..." encoded as KSeq with k kids
